@@ -140,7 +140,7 @@ Proof.
   intros H. pose proof H as (A1 & A2 & A3 & A4 & A5 & A6). unfold note_subtype.
   destruct ((r_type r =? TY_PTR) && fu && has_sub_mark (r_name r)); [|assumption].
   destruct (r_data r); try assumption. rewrite A6. destruct (sub_get alias (c_sub c')); [assumption|].
-  repeat split; simpl; auto. now rewrite A6.
+  repeat split; simpl; auto.
 Qed.
 
 Lemma ceqr_add_or_update c c' now ifx r fu : ceqr c c' ->
@@ -273,9 +273,9 @@ Proof.
   intros (A1 & A2 & A3 & A4 & A5 & A6). unfold evict_addr. simpl. split.
   - repeat split; simpl; auto using meqr_sweep.
   - clear - A4. induction A4 as [|[k b] [k' b'] t t' [Hk Hb] H IH]; simpl; [reflexivity|].
-    simpl in Hb. rewrite IH. f_equal. clear - Hb. induction Hb as [|x y l l' Hxy Hl IH]; simpl; [reflexivity|].
-    rewrite (eqr_is_expired _ _ now Hxy). destruct Hxy as (H1 & _). unfold e_name.
-    destruct (is_expired y now); simpl; rewrite ?H1, IH; reflexivity.
+    simpl in Hb. rewrite IH. f_equal. clear - Hb. induction Hb as [|x y l l' Hxy Hl IHb]; simpl; [reflexivity|].
+    rewrite (eqr_is_expired _ _ now Hxy). destruct Hxy as (H1 & _).
+    destruct (is_expired y now); simpl; [unfold e_name at 1 3; rewrite H1; f_equal; exact IHb|exact IHb].
 Qed.
 
 Lemma meqr_fold_remove l : forall m m', meqr m m' ->
@@ -346,8 +346,8 @@ Proof.
   - repeat split; simpl; auto.
     + apply meqr_set; [now apply beqr_sooner_all|assumption].
     + now apply meqr_verify_addrs.
-  - f_equal. clear - Hg. induction Hg as [|x y l l' (H1 & _) Hl IH]; simpl; [reflexivity|].
-    unfold srv_host. now rewrite H1, IH.
+  - f_equal. clear - Hg. induction Hg as [|x y l l' (H1 & _) Hl IH]; [reflexivity|].
+    simpl. unfold srv_host in *. rewrite H1. f_equal. f_equal. exact IH.
 Qed.
 
 (* refresh_active_services changes refresh marks only *)
@@ -365,8 +365,8 @@ Lemma meqr_set_same k b b' m : bm_get k m = Some b -> beqr b b' -> meqr m (bm_se
 Proof.
   induction m as [|[k1 b1] t IH]; simpl; [discriminate|].
   destruct (beq k k1).
-  - intros H Hb. inversion H; subst. constructor; [split; auto|apply meqr_refl].
-  - intros H Hb. constructor; [split; auto using beqr_refl|auto].
+  - intros H Hb. inversion H; subst. constructor; [split; [reflexivity|exact Hb]|apply meqr_refl].
+  - intros H Hb. constructor; [split; [reflexivity|apply beqr_refl]|apply IH; assumption].
 Qed.
 
 Lemma meqr_refresh_key now k m : meqr m (fst (refresh_key now k m)).
@@ -449,14 +449,20 @@ Proof.
   split; [now rewrite E|now rewrite F].
 Qed.
 
+Lemma last_cons_default {A} (l : list A) : forall a d, last (a :: l) d = last l a.
+Proof.
+  induction l as [|x l IH]; intros a d; [reflexivity|].
+  change (last (a :: x :: l) d) with (last (x :: l) d). rewrite IH. symmetry. apply IH.
+Qed.
+
 Lemma tracks_reads ifs now ds : forall s sp, tracks s sp ->
   tracks (fst (run_cmds (handle_read ifs) s now ds)) (last (scan (spec_dgram ifs now) sp ds) sp).
 Proof.
-  induction ds as [|d rest IH]; intros s sp H; simpl; [assumption|].
+  induction ds as [|d rest IH]; intros s sp H; [simpl; assumption|].
   pose proof (tracks_read ifs now s sp d H) as H1.
-  destruct (handle_read ifs s now d) as [s1 o1]. simpl in H1.
-  specialize (IH s1 _ H1). destruct (run_cmds (handle_read ifs) s1 now rest) as [s2 o2]. simpl in *.
-  destruct (scan (spec_dgram ifs now) (spec_dgram ifs now sp d) rest) eqn:E; simpl in *; assumption.
+  simpl run_cmds. destruct (handle_read ifs s now d) as [s1 o1]. simpl in H1.
+  specialize (IH s1 _ H1). destruct (run_cmds (handle_read ifs) s1 now rest) as [s2 o2].
+  simpl fst in *. simpl scan. rewrite last_cons_default. exact IH.
 Qed.
 
 Lemma tracks_call now s sp cl : tracks s sp -> tracks (fst (exec_call s now cl)) (spec_call now sp cl).
@@ -505,14 +511,14 @@ Proof.
     destruct (ceqr_verify (s_cache s) (s_cache s) inst None (ceqr_refl _)) as [_ _].
     assert (Hn : ceqr (fst (service_verify_queries (s_cache s) inst None)) (s_cache s)).
     { unfold service_verify_queries. destruct (bm_get inst (c_srv (s_cache s))) as [sb|] eqn:E; [|apply ceqr_refl].
-      simpl. repeat split; simpl; try apply meqr_refl.
+      simpl. repeat split; simpl; try apply meqr_refl; try reflexivity.
       - apply meqr_trans with (c_srv (s_cache s)); [|apply meqr_refl].
         assert (G : forall m, bm_get inst m = Some sb -> bm_set inst sb m = m).
         { induction m as [|[k1 b1] t IH]; simpl; [discriminate|]. destruct (beq inst k1) eqn:Ek.
           - intros H. inversion H; subst. reflexivity.
           - intros H. now rewrite (IH H). }
         rewrite (G _ E). apply meqr_refl.
-      - generalize (c_addr (s_cache s)). induction sb as [|x l IH]; intros m; simpl; [apply meqr_refl|].
+      - clear E. generalize (c_addr (s_cache s)). induction sb as [|x l IH]; intros m; simpl; [apply meqr_refl|].
         destruct (bm_get (lower (srv_host x)) m) as [ab|] eqn:Ea; [|apply IH].
         assert (G : forall m0, bm_get (lower (srv_host x)) m0 = Some ab -> bm_set (lower (srv_host x)) ab m0 = m0).
         { induction m0 as [|[k1 b1] t IH0]; simpl; [discriminate|]. destruct (beq (lower (srv_host x)) k1) eqn:Ek.
@@ -542,41 +548,47 @@ Proof.
   destruct (IH s1) as [C D]. destruct (resolve_hosts s1 now t) as [s2 o2]. simpl in *. rewrite C, D. auto.
 Qed.
 
+Lemma ceqr_sym a b : ceqr a b -> ceqr b a.
+Proof.
+  assert (E : forall x y, eqr x y -> eqr y x) by (intros x y (A & B & C & D); repeat split; auto).
+  assert (Bq : forall x y, beqr x y -> beqr y x) by (intros x y Hx; induction Hx; constructor; auto).
+  assert (Mq : forall x y, meqr x y -> meqr y x).
+  { intros x y Hx; induction Hx as [|? ? ? ? [Hk Hb] Hx IH]; constructor; auto. }
+  intros (A1 & A2 & A3 & A4 & A5 & A6). repeat split; auto.
+Qed.
+
+Lemma tracks_evict now s sp : tracks s sp -> tracks (fst (evict s now)) (spec_evict now sp).
+Proof.
+  intros [Hc Hq]. unfold evict, spec_evict.
+  destruct (ceqr_evict_services _ _ now Hc) as [E1 E2].
+  destruct (evict_services (s_cache s) now) as [c5 ex], (evict_services (sp_c sp) now) as [c5' ex'].
+  cbn [fst snd] in E1, E2.
+  destruct (ceqr_evict_addr _ _ now E1) as [F1 F2].
+  destruct (evict_addr c5 now) as [c6 names], (evict_addr c5' now) as [c6' names']. cbn [fst snd] in F1, F2.
+  destruct (resolve_hosts_state now (dedup names) (with_cache s c6)) as [G1 G2].
+  destruct (resolve_hosts (with_cache s c6) now (dedup names)) as [s7 o7]. cbn [fst snd] in *.
+  split; cbn [sp_c sp_q]; [rewrite G1; exact F1|rewrite G2; exact Hq].
+Qed.
+
 (* one iteration: the end-of-iteration snapshot of the checkers tracks the model state *)
 Theorem tracks_iterate ifs s sp it :
   tracks s sp -> tracks (fst (iterate ifs s it)) (snd (iter_snaps ifs sp it)).
 Proof.
   intros H. unfold iterate, iter_snaps. set (now := i_now it).
   pose proof (tracks_reads ifs now (deliveries_in_order (i_dgrams it)) s sp H) as H1.
-  destruct (run_cmds (handle_read ifs) s now (deliveries_in_order (i_dgrams it))) as [s1 o1]. simpl in H1.
+  destruct (run_cmds (handle_read ifs) s now (deliveries_in_order (i_dgrams it))) as [s1 o1]. cbn [fst] in H1.
   pose proof (tracks_calls now (i_calls it) s1 _ H1) as H2.
-  destruct (run_cmds exec_call s1 now (i_calls it)) as [s2 o2]. simpl in H2.
+  destruct (run_cmds exec_call s1 now (i_calls it)) as [s2 o2]. cbn [fst] in H2.
   pose proof (tracks_retrans now s2 _ H2) as H3.
-  destruct (run_retrans s2 now) as [s3 o3]. simpl in H3.
+  destruct (run_retrans s2 now) as [s3 o3]. cbn [fst] in H3.
   pose proof (ceqr_refresh_all now (s_q s3) (s_cache s3)) as H4.
-  destruct (refresh_all (s_cache s3) now (s_q s3)) as [c4 o4]. simpl in H4.
-  simpl. unfold evict, spec_evict.
-  destruct H3 as [Hc Hq].
-  assert (Hc4 : ceqr c4 (sp_c (fold_left (spec_call now) (i_calls it)
-                   (last (scan (spec_dgram ifs now) sp (deliveries_in_order (i_dgrams it))) sp)))).
-  { (* refresh marks only: c4 ~ cache of s3 ~ spec cache *)
-    assert (Hsym : forall a b, ceqr a b -> ceqr b a).
-    { assert (E : forall x y, eqr x y -> eqr y x) by (intros x y (A & B & C & D); repeat split; auto).
-      assert (Bq : forall x y, beqr x y -> beqr y x) by (intros x y Hx; induction Hx; constructor; auto).
-      assert (Mq : forall x y, meqr x y -> meqr y x).
-      { intros x y Hx; induction Hx as [|? ? ? ? [Hk Hb] Hx IH]; constructor; auto. }
-      intros a b (A1 & A2 & A3 & A4 & A5 & A6). repeat split; auto. }
-    eapply ceqr_trans; [apply Hsym; exact H4|exact Hc]. }
-  simpl.
-  destruct (ceqr_evict_services _ _ now Hc4) as [E1 E2].
-  destruct (evict_services c4 now) as [c5 ex], (evict_services (sp_c (fold_left (spec_call now) (i_calls it)
-             (last (scan (spec_dgram ifs now) sp (deliveries_in_order (i_dgrams it))) sp))) now) as [c5' ex'].
-  simpl in E1, E2.
-  destruct (ceqr_evict_addr _ _ now E1) as [F1 F2].
-  destruct (evict_addr c5 now) as [c6 names], (evict_addr c5' now) as [c6' names']. simpl in F1, F2.
-  destruct (resolve_hosts_state now (dedup names) (with_cache s3 c6)) as [G1 G2].
-  destruct (resolve_hosts (with_cache s3 c6) now (dedup names)) as [s7 o7]. simpl in *.
-  split; [now rewrite G1|now rewrite G2].
+  destruct (refresh_all (s_cache s3) now (s_q s3)) as [c4 o4]. cbn [fst] in H4.
+  assert (H5 : tracks (with_cache s3 c4) (fold_left (spec_call now) (i_calls it)
+                 (last (scan (spec_dgram ifs now) sp (deliveries_in_order (i_dgrams it))) sp))).
+  { destruct H3 as [Hc Hq]. split; [|exact Hq]. cbn [with_cache s_cache].
+    eapply ceqr_trans; [apply ceqr_sym; exact H4|exact Hc]. }
+  pose proof (tracks_evict now _ _ H5) as H6.
+  destruct (evict (with_cache s3 c4) now) as [s5 o5]. cbn [fst snd] in *. exact H6.
 Qed.
 
 (* all histories *)
